@@ -38,5 +38,16 @@ int main()
       if (static_cast<const void*>(&f) != static_cast<const void*>(&v)) FAIL("forward_sequence of a const lvalue of the requested type made a copy");
       auto&& g = xtl::forward_sequence<std::vector<int>, std::vector<int>&>(v); if (&g != &v) FAIL("forward_sequence of an lvalue of the requested type made a copy");
       const std::array<int, 3> a = {{4, 5, 6}}; auto&& h = xtl::forward_sequence<std::array<int, 3>, const std::array<int, 3>&>(a); if (&h != &a) FAIL("forward_sequence of a const array lvalue made a copy"); }
+    { P* t = new P(31); xtl::xclosure_wrapper<xtl::const_closure_type_t<P&&>> w(std::move(*t)); t->v = 99; delete t;
+      if (w.get().v != 31) FAIL("a closure of type const_closure_type_t<T&&> aliases the rvalue source instead of owning a copy"); }
+    { P* t = new P(32); xtl::xclosure_wrapper<xtl::closure_type_t<P&&>> w(std::move(*t)); t->v = 99; delete t;
+      if (w.get().v != 32) FAIL("a closure of type closure_type_t<T&&> aliases the rvalue source instead of owning a copy"); }
+    { xtl::xclosure_wrapper<P> w(P(41)); auto&& r = std::move(w).get();
+      if (static_cast<const void*>(&r) == static_cast<const void*>(&w.get())) FAIL("get() on an rvalue owning closure hands out its own storage, not an independent object"); }
+    { P x(51); bool f = true; P::copies = 0; auto&& r = xtl::value(xtl::optional(x, f));
+      if (&r != &x || P::copies) FAIL("xtl::value(temporary optional of references) does not designate the referent (a copy was made)");
+      auto&& g = xtl::has_value(xtl::optional(x, f)); if (&g != &f) FAIL("xtl::has_value(temporary optional of references) does not designate the flag"); }
+    { P x(61); auto p = xtl::closure_pointer(x); if (&*p != &x || p.operator->() != &x) FAIL("closure_pointer(lvalue) does not point at the original object");
+      P* t = new P(62); auto q = xtl::closure_pointer(std::move(*t)); delete t; if ((*q).v != 62) FAIL("closure_pointer(rvalue) does not own a copy"); }
     return 0;
 }
